@@ -75,7 +75,9 @@ def _execute(case, col, model):
     if name not in ns:
         return [Failure("variable-not-bound", f"`{name}` is not bound by the rendered code\ncode:\n{code[:2000]}", case)]
     back = ns[name]
-    if not deep_eq(back, obj):
+    # the property promises an *equal* object: values the serializer leaves out because they equal the field default under the
+    # type's own `==` (0.0 / -0.0, a time with offset 0 / without offset) are equal in that sense
+    if not deep_eq(back, obj, own_eq=True):
         from checks.c01 import classify
         return [Failure("evaluates-differently/" + classify(case, obj, back), f"{first_diff(obj, back)}\ncode:\n{code[:3000]}\nmodel:\n{model.src}", case)]
     return []
